@@ -42,6 +42,9 @@ type c05Scenario struct {
 	Why     string
 	Init    []wh.Req
 	Threads [][]c05Op
+	// Cold: the witness object is replaced by a new one over the same store
+	// after Init (a restart: nothing in memory, state in the store).
+	Cold bool
 	// Props: the checks that explore this scenario (C05 explores S1..S6;
 	// the others are the concurrent legs of C01, C03 and C12).
 	Props string
@@ -102,6 +105,8 @@ func c05Scenarios(u *uni.U, gen *wh.CPGen, la, lb wh.LogCfg) []c05Scenario {
 		{Name: "S9", Props: "C12", Why: "first use of two different logs overlapping", Threads: [][]c05Op{{up(la, m, 0, 4)}, {up(lb, m, 0, 3)}, {logs, get(lb)}}},
 		{Name: "S10", Props: "C12", Why: "growth of two different logs overlapping", Init: []wh.Req{up(la, m, 0, 2).Req, up(lb, m, 0, 3).Req},
 			Threads: [][]c05Op{{up(la, m, 2, 4)}, {up(lb, m, 3, 5)}, {get(la), get(lb)}}},
+		{Name: "S11", Props: "C05 C04 C16", Cold: true, Why: "restarted witness: a first read overlapping a growth, then reads", Init: initA4,
+			Threads: [][]c05Op{{up(la, m, 4, 6)}, {get(la), get(la)}, {get(la)}}},
 		{Name: "S1", Props: "C05 C01", Why: "conflicting first use", Threads: [][]c05Op{{up(la, m, 0, 4)}, {up(la, f0, 0, 4)}, {get(la)}}},
 		{Name: "S2", Props: "C05 C01", Why: "two growths from 4, each valid alone, together a split view", Init: initA4,
 			Threads: [][]c05Op{{up(la, m, 4, 6)}, {up(la, f4, 4, 6)}, {get(la), get(la)}}},
@@ -190,6 +195,9 @@ func c05Build(u *uni.U, store string, la, lb wh.LogCfg, sc c05Scenario) *c05Inst
 		if out := inst.env.Do(r); out.Class != wh.OK {
 			ev.Internal("scenario %s: init step %d refused: %v", sc.Name, i, out.Err)
 		}
+	}
+	if sc.Cold {
+		inst.env.Restart()
 	}
 	return inst
 }
